@@ -59,7 +59,10 @@ def log(*a):
     print(*a, file=sys.stderr, flush=True)
 
 
-def build_overlay(work):
+def build_overlay(work, tags=()):
+    """overlay/<pkg>/zz_vp.go is injected for every property; overlay/<pkg>/zz_vp_<tag>.go only
+    for the properties whose props file names the tag in OVERLAY (so that a change to an
+    unexported function one wrapper calls cannot take the other properties' checks down)."""
     rep = {}
     ovdir = os.path.join(ROOT, 'overlay')
     for pkg in sorted(os.listdir(ovdir)):
@@ -68,6 +71,8 @@ def build_overlay(work):
             continue
         for f in sorted(os.listdir(d)):
             if not f.endswith('.go'):
+                continue
+            if f != 'zz_vp.go' and not (f.startswith('zz_vp_') and f[6:-3] in tags):
                 continue
             sub = '' if pkg == 'ivg' else pkg.replace('__', '/')
             rep[os.path.join(REPO, sub, f)] = os.path.join(d, f)
@@ -554,7 +559,7 @@ def main():
 
 def run(pid, seed, t0):
     global PROG, OVERLAY, BASE_EX
-    OVERLAY = build_overlay(WORK)
+    OVERLAY = build_overlay(WORK, tuple(getattr(load_cfg(pid), 'OVERLAY', ()) or ()))
     alt_modfile(WORK)
     if ARGS.replay:
         return do_replay(pid, ARGS.replay)
